@@ -40,6 +40,7 @@ class _:
 class _:
     """floor square root (float seed + Newton iteration on integers: the seed is outside the subset)"""
     assumed = True
+    search = 'isqrt_inputs'
     shapes = dict(x='int')
     result = 'int'
 
@@ -52,8 +53,11 @@ class _:
 
 @contract(IM + 'isqrt_fast_python')
 class _:
-    """documented: floor(sqrt(x)) or 1 too small (float seed, division-free Newton)"""
+    """documented: floor(sqrt(x)) "or 1 ulp wrong".  Assumed here: never more than 1 too small.  (An earlier version
+    of this contract also assumed `result**2 <= x`; the native spot check refuted it: isqrt_fast_python(2**54 - 1) is
+    2**27, one too large.  sqrtrem_python only needs the lower side: it starts from result + 1 and walks down.)"""
     assumed = True
+    search = 'isqrt_inputs'
     shapes = dict(x='int')
     result = 'int'
 
@@ -61,7 +65,7 @@ class _:
         return x >= 0
 
     def ensures_near(x, result):
-        return result >= 0 and result * result <= x and x < (result + 2) * (result + 2)
+        return result >= 0 and x < (result + 2) * (result + 2)
 
 
 @contract(IM + 'sqrtrem_python')
